@@ -394,6 +394,19 @@ func pItems(tier string) []proto.Item {
 			}
 		}
 	}
+	// SACK: the destination answers the probes that reach it with a time-exceeded from its own address instead of a
+	// selective acknowledgement (the TTL ran out in its own stack, or a NAT in front of it answers in its name): that proves
+	// arrival for this variant, the list ends there - also when only the LATER probes are answered that way
+	for _, v := range []string{"sack", "sackstrict"} {
+		for _, from := range []int{3, 4} {
+			s := proto.Scn{Variant: v, First: 1, Last: 6, Dest: 3, IPIDBase: 300, EchoBase: 31, TimeoutMs: 300, DelayMs: 10}
+			s.Hops = map[int]proto.HopSpec{}
+			for t := from; t <= 6; t++ {
+				s.Hops[t] = proto.HopSpec{AtTarget: true, Form: "te28"}
+			}
+			items = append(items, proto.Item{Scn: s, Class: fmt.Sprintf("%s/destination-answers-with-time-exceeded-from-ttl%d", v, from), Note: map[string]string{"want_len": "3"}})
+		}
+	}
 	// the destination's answer (and a router's) arrives in an IPv4 datagram whose own header carries options: every
 	// offset behind the header moves, for the capture filter and for the decoder alike; the list still ends at the destination
 	for _, v := range proto.Variants {
